@@ -2,6 +2,8 @@
 checker's own scope analysis - no second scope resolver exists in the services crate (DESIGN.md §3.12)."""
 from ..core import RuleResult, field_reads
 from ..facts import callee
+from ..cfg import single_def
+from ..dataflow import operand_root
 from ..callgraph import body_refs
 
 SSA = 'samlang_checker::ssa_analysis::SsaAnalysisResult'
@@ -79,11 +81,16 @@ def run_nav_via_ssa(prog, tier, repo):
         return [res]
     tn = tn[0]
     n = 0
+    # small service functions that wrap the lookup count as the lookup
+    wrappers = {b.id for b in prog.bodies.values() if b.crate == 'samlang_services' and b.kind != 'closure' and len(b.blocks) <= 40
+                and any(not bl.cleanup and bl.term[0] == 'call' and (callee(bl.term)[1] or '').endswith('find_all_definition_and_uses')
+                        for bl in b.blocks)}
     for b in prog.bodies.values():
         if b.crate != 'samlang_services' or b.kind == 'closure':
             continue
         lookups = [bi for bi, bl in enumerate(b.blocks) if not bl.cleanup and bl.term[0] == 'call'
-                   and (callee(bl.term)[1] or '').endswith('find_all_definition_and_uses')]
+                   and ((callee(bl.term)[1] or '').endswith('find_all_definition_and_uses')
+                        or (callee(bl.term)[0] in wrappers and callee(bl.term)[0] != b.id))]
         if not lookups:
             continue
         cfg = cfg_of(b)
@@ -144,5 +151,48 @@ def run_ident_alphabet(prog, tier, repo):
                 res.violation(f'alphabet:{b.name}:{short}', b.loc(line), f'{b.name} validates an identifier with the Unicode class '
                               f'`char::{short}`: names such as `naïve` or `x٣` pass the check, but the lexer only accepts '
                               f'[A-Za-z0-9], so the renamed document does not parse and cannot be renamed back')
+    # ... and with the parser's own notion of a name: the alphabet also spells every keyword. The entry point that applies a
+    # renaming hands the new name to the parser first, on every path to the application.
+    from ..cfg import cfg_of
+    n_entry = 0
+    for b in sorted(prog.bodies.values(), key=lambda x: x.name):
+        if b.crate != 'samlang_services' or '::rewrite::' not in b.name + '::' or b.kind == 'closure':
+            continue
+        applies = [bi for bi, bl in enumerate(b.blocks) if not bl.cleanup and bl.term[0] == 'call'
+                   and (callee(bl.term)[1] or '').endswith('variable_definition::apply_renaming')]
+        if not applies:
+            continue
+        n_entry += 1
+        strs = [i for i in range(1, b.nargs + 1) if b.locals[i].s in ('&str', '&std::string::String')]
+        parses = []
+        for bi, bl in enumerate(b.blocks):
+            t = bl.term
+            if bl.cleanup or t[0] != 'call' or not (callee(t)[1] or '').startswith('samlang_parser::'):
+                continue
+            for o in t[3]:
+                if o[0] not in ('c', 'm'):
+                    continue
+                cur, ok = o, False
+                for _ in range(5):
+                    r, _p = operand_root(b, cur)
+                    if r in strs:
+                        ok = True
+                        break
+                    sd = single_def(b, r) if r is not None else None
+                    if sd and sd[1] == 'term' and sd[2][3] and (callee(sd[2])[1] or '').split('::')[-1] in ('trim', 'trim_start', 'trim_end', 'as_str', 'deref', 'as_ref'):
+                        cur = sd[2][3][0]
+                        continue
+                    break
+                if ok:
+                    parses.append(bi)
+        cfg = cfg_of(b)
+        key = f'keyword-gate:{b.name}'
+        if parses and all(cfg.nodes_dominate(parses, a) for a in applies):
+            res.ok(key, b.loc(), 'the new name is read back by the parser before the renaming is applied')
+        else:
+            res.violation(key, b.loc(b.blocks[applies[0]].term[7]), f'{b.name} applies a renaming without having the parser read the new '
+                          f'name back: every keyword (`match`, `if`, `let`, ...) passes the alphabet test, and the renamed document '
+                          f'then does not parse')
     res.floor('ASCII class tests in the rename entry point', n_ascii, 2)
+    res.floor('rename entry points', n_entry, 1)
     return [res]
